@@ -247,6 +247,8 @@ func runC06(c *run.Ctx) {
 		Seqs(c, fragText[:30], 4, 4, func(in []byte, _ []int) { eval(named[:min(8, len(named))], in) })
 	}
 	Seqs(c, fragAll(), 3, 3, func(in []byte, _ []int) { eval(named[:min(6, len(named))], in) })
+	SeqsS(c, "exotic", fragCoreExotic(), 0, 2, func(in []byte, _ []int) { eval(named, in) })
+	SeqsS(c, "exotic", fragCoreExotic(), 3, 3, func(in []byte, _ []int) { eval(named[:min(8, len(named))], in) })
 	nb := 5
 	bsp := pick(named, "bpbr", "bpbr-spaces", "ugc")
 	if !c.Quick() {
